@@ -1,7 +1,382 @@
 /-
   Proofs/PlanLemmas.lean — helper lemmas about `BV.plan` and its phases.
+
+  Three independent passes over the phases of `plan`:
+  * "shape": which events a phase appends (used for all membership properties);
+  * "stop":  an invariant saying that no non-swallowed VCS invocation has failed so far;
+  * "order": an invariant saying that the ranks logged so far are sorted and bounded.
 -/
 import BumpverVerif.Model.Plan
 namespace BV
+
+/-! ### `parseVcsOptions` -/
+
+theorem parseVcsOptions_none_iff (c : PlanCfg) (a : PlanCli) :
+    parseVcsOptions c a = none ↔
+      (a.commit.getD c.commit = false ∧ (a.tagCommit = some true ∨ a.push = some true)) := by
+  obtain ⟨cc, ct, cp, cpre, cpost, csc, ctm⟩ := c
+  obtain ⟨ac, at', ap, apre, apost, asc, adry, afetch, aign, aset⟩ := a
+  rcases ac with _ | _ | _ <;> rcases at' with _ | _ | _ <;> rcases ap with _ | _ | _ <;>
+    cases cc <;> simp [parseVcsOptions]
+
+theorem parseVcsOptions_some {c : PlanCfg} {a : PlanCli} {c' : PlanCfg}
+    (h : parseVcsOptions c a = some c') :
+    c'.commit = a.commit.getD c.commit ∧ c'.tag = a.tagCommit.getD c.tag ∧
+      c'.push = a.push.getD c.push := by
+  obtain ⟨cc, ct, cp, cpre, cpost, csc, ctm⟩ := c
+  obtain ⟨ac, at', ap, apre, apost, asc, adry, afetch, aign, aset⟩ := a
+  rcases ac with _ | _ | _ <;> rcases at' with _ | _ | _ <;> rcases ap with _ | _ | _ <;>
+    cases cc <;> rcases asc with _ | _ | _ <;> simp [parseVcsOptions] at h ⊢ <;> subst h <;> simp
+
+/-! ### shape of the logs of the phases -/
+
+@[simp] theorem vcsCall_evs (e : PlanEnv) (ev : Ev) (s : PState) :
+    (vcsCall e ev s).1.evs = ev :: s.evs := rfl
+@[simp] theorem vcsCall_n (e : PlanEnv) (ev : Ev) (s : PState) :
+    (vcsCall e ev s).1.n = s.n + 1 := rfl
+
+/-- `l'` extends the (reversed) log `l` by events satisfying `P` -/
+def Ext (P : Ev → Prop) (l l' : List Ev) : Prop := ∃ new, l' = new ++ l ∧ ∀ ev ∈ new, P ev
+
+theorem Ext.refl {P : Ev → Prop} (l : List Ev) : Ext P l l := ⟨[], by simp⟩
+theorem Ext.cons {P : Ev → Prop} {l l' : List Ev} {ev : Ev} (hp : P ev) (h : Ext P l l') :
+    Ext P l (ev :: l') := by
+  obtain ⟨new, rfl, hn⟩ := h
+  exact ⟨ev :: new, by simp, by simpa [hp] using hn⟩
+theorem Ext.trans {P : Ev → Prop} {l l' l'' : List Ev} (h1 : Ext P l l') (h2 : Ext P l' l'') :
+    Ext P l l'' := by
+  obtain ⟨n1, rfl, hn1⟩ := h1
+  obtain ⟨n2, rfl, hn2⟩ := h2
+  refine ⟨n2 ++ n1, by simp, ?_⟩
+  intro ev hev
+  rcases List.mem_append.1 hev with h | h
+  · exact hn2 ev h
+  · exact hn1 ev h
+theorem Ext.mono {P Q : Ev → Prop} {l l' : List Ev} (hpq : ∀ ev, P ev → Q ev) (h : Ext P l l') :
+    Ext Q l l' := by
+  obtain ⟨new, rfl, hn⟩ := h
+  exact ⟨new, rfl, fun ev hev => hpq ev (hn ev hev)⟩
+
+theorem isUsable_shape (e : PlanEnv) (s : PState) :
+    ((isUsable e s).1.evs = s.evs ∧ (isUsable e s).2 = false) ∨
+      (isUsable e s).1.evs = .cmd "is_usable" :: s.evs := by
+  unfold isUsable
+  split <;> simp
+
+/-- the probes of `get_remote` -/
+def RemEv (ev : Ev) : Prop := ev = .cmd "ls_branches" ∨ ev = .cmd "show_remotes"
+
+theorem getRemote_ext (e : PlanEnv) (s : PState) : Ext RemEv s.evs (getRemote e s).1.evs := by
+  unfold getRemote
+  split
+  · simp only []
+    split
+    · exact .cons (.inl rfl) (.refl _)
+    · split
+      · exact .cons (.inl rfl) (.refl _)
+      · exact .cons (.inr rfl) (.cons (.inl rfl) (.refl _))
+  · exact .cons (.inr rfl) (.refl _)
+
+/-- events `get_tags` may log; `fetch` and the remote probes only when fetching is requested -/
+def TagEv (f : Bool) (ev : Ev) : Prop :=
+  ev = .cmd "is_usable" ∨ ev = .cmd "ls_tags" ∨ ev = .cmd "ls_tags_branch" ∨
+    (f = true ∧ (ev = .cmd "ls_branches" ∨ ev = .cmd "show_remotes" ∨ ev = .cmd "fetch"))
+
+theorem getTags_ext (e : PlanEnv) (f b : Bool) (s : PState) :
+    Ext (TagEv f) s.evs (getTags e f b s).1.evs := by
+  unfold getTags
+  have h1 : Ext (TagEv f) s.evs (isUsable e s).1.evs := by
+    rcases isUsable_shape e s with ⟨h, _⟩ | h <;> rw [h]
+    · exact .refl _
+    · exact .cons (.inl rfl) (.refl _)
+  generalize isUsable e s = r at *
+  obtain ⟨s1, u⟩ := r
+  simp only at h1 ⊢
+  have hls : TagEv f (.cmd (if b then "ls_tags_branch" else "ls_tags")) := by
+    cases b <;> simp [TagEv]
+  split
+  · exact h1
+  · cases f
+    · exact .cons hls h1
+    · have h2 := (getRemote_ext e s1).mono (Q := TagEv true) (by
+        rintro ev (h | h) <;> simp [TagEv, h])
+      generalize getRemote e s1 = r at *
+      obtain ⟨sa, rem⟩ := r
+      cases rem
+      · exact .cons hls (h1.trans h2)
+      · simp only [if_true]
+        split
+        · exact .cons (by simp [TagEv]) (h1.trans h2)
+        · exact .cons hls (.cons (by simp [TagEv]) (h1.trans h2))
+
+/-- the `add` events for a list of files, most recent first -/
+def addsRev (l : List Str) : List Ev := (l.map Ev.add).reverse
+
+theorem addAll_shape (e : PlanEnv) (l : List Str) (s : PState) :
+    ∃ l1 l2, l = l1 ++ l2 ∧ (addAll e l s).1.evs = addsRev l1 ++ s.evs ∧
+      ((addAll e l s).2 = .ok → l2 = []) := by
+  induction l generalizing s with
+  | nil => exact ⟨[], [], by simp [addAll, addsRev]⟩
+  | cons p ps ih =>
+    unfold addAll
+    simp only []
+    split
+    · exact ⟨[p], ps, by simp [addsRev]⟩
+    · obtain ⟨l1, l2, h1, h2, h3⟩ := ih (vcsCall e (.add p) s).1
+      exact ⟨p :: l1, l2, by simp [h1], by simp [h2, addsRev], h3⟩
+
+def hookPre (e : PlanEnv) (c : PlanCfg) : List Ev :=
+  if c.preHook then [.preHook e.startVersion e.announced] else []
+def hookPost (e : PlanEnv) (c : PlanCfg) : List Ev :=
+  if c.postHook then [.postHook e.startVersion e.announced] else []
+def tagCmd (c : PlanCfg) : Ev := .cmd (if c.tagMsgEmpty then "tag_light" else "tag")
+def tagL (c : PlanCfg) : List Ev := if c.tag then [tagCmd c] else []
+def pushCmd (c : PlanCfg) : Ev := .cmd (if c.tag then "push_tag" else "push")
+/-- everything up to and including the commit, most recent first -/
+def uptoCommit (e : PlanEnv) (c : PlanCfg) : List Ev :=
+  .cmd "commit" :: addsRev e.files ++ hookPre e c
+
+/-- the possible logs (most recent first) and outcomes of `commitPhase` -/
+inductive CommitShape (e : PlanEnv) (c : PlanCfg) : List Ev → Outcome → Prop
+  | preFail : c.preHook = true → e.preOk = false →
+      CommitShape e c [.preHook e.startVersion e.announced] .failed
+  | addFail (l1 l2 : List Str) : (c.preHook = true → e.preOk = true) → e.files = l1 ++ l2 →
+      CommitShape e c (addsRev l1 ++ hookPre e c) .failed
+  | commitFail : (c.preHook = true → e.preOk = true) → CommitShape e c (uptoCommit e c) .failed
+  | postFail : (c.preHook = true → e.preOk = true) → c.postHook = true → e.postOk = false →
+      CommitShape e c (.postHook e.startVersion e.announced :: uptoCommit e c) .failed
+  | tagFail : (c.preHook = true → e.preOk = true) → (c.postHook = true → e.postOk = true) →
+      c.tag = true → CommitShape e c (tagCmd c :: hookPost e c ++ uptoCommit e c) .failed
+  | noPush : (c.preHook = true → e.preOk = true) → (c.postHook = true → e.postOk = true) →
+      c.push = false → CommitShape e c (tagL c ++ hookPost e c ++ uptoCommit e c) .ok
+  | noRemote (probes : List Ev) : (c.preHook = true → e.preOk = true) →
+      (c.postHook = true → e.postOk = true) → c.push = true → (∀ ev ∈ probes, RemEv ev) →
+      CommitShape e c (probes ++ tagL c ++ hookPost e c ++ uptoCommit e c) .ok
+  | push (probes : List Ev) (o : Outcome) : (c.preHook = true → e.preOk = true) →
+      (c.postHook = true → e.postOk = true) → c.push = true → (∀ ev ∈ probes, RemEv ev) →
+      CommitShape e c (pushCmd c :: probes ++ tagL c ++ hookPost e c ++ uptoCommit e c) o
+
+theorem Outcome.ok_of_not_failed {o : Outcome} (h : ¬ (o == Outcome.failed) = true) : o = .ok := by
+  cases o <;> simp_all
+
+theorem commitPhase_shape' (e : PlanEnv) (c : PlanCfg) (s : PState) (r : PState × Outcome)
+    (h : commitPhase e c s = r) :
+    ∃ C, r.1.evs = C ++ s.evs ∧ CommitShape e c C r.2 := by
+  unfold commitPhase at h
+  extract_lets s0 at h
+  have hs0 : s0.evs = hookPre e c ++ s.evs := by
+    simp only [s0, hookPre]; split <;> rfl
+  clear_value s0
+  split at h
+  · rename_i hp
+    simp at hp
+    subst h
+    exact ⟨[.preHook e.startVersion e.announced], by simp [hs0, hookPre, hp.1], .preFail hp.1 hp.2⟩
+  · rename_i hp
+    have hp' : c.preHook = true → e.preOk = true := by simpa using hp
+    split at h
+    rename_i s1 o1 hadd
+    obtain ⟨l1, l2, hl, hevs, hok⟩ := addAll_shape e e.files s0
+    rw [hadd] at hevs hok
+    simp only at hevs hok
+    split at h
+    · subst h
+      exact ⟨addsRev l1 ++ hookPre e c, by simp [hevs, hs0], .addFail l1 l2 hp' hl⟩
+    · rename_i ho1
+      have hl2 := hok (Outcome.ok_of_not_failed ho1)
+      subst hl2
+      simp only [List.append_nil] at hl
+      rw [← hl] at hevs
+      clear hok hl l1
+      split at h
+      rename_i s2 o2 hcm
+      have h2 : s2.evs = uptoCommit e c ++ s.evs := by
+        have := congrArg (fun r => r.1.evs) hcm
+        simpa [hevs, hs0, uptoCommit] using this.symm
+      split at h
+      · subst h
+        exact ⟨_, h2, .commitFail hp'⟩
+      · extract_lets s3 at h
+        have h3 : s3.evs = hookPost e c ++ uptoCommit e c ++ s.evs := by
+          simp only [s3, hookPost]; split <;> simp [h2]
+        clear_value s3
+        split at h
+        · rename_i hq
+          simp at hq
+          subst h
+          exact ⟨_, by simpa [hookPost, hq.1] using h3, .postFail hp' hq.1 hq.2⟩
+        · rename_i hq
+          have hq' : c.postHook = true → e.postOk = true := by simpa using hq
+          split at h
+          rename_i s4 o4 htag
+          have h4 : s4.evs = tagL c ++ hookPost e c ++ uptoCommit e c ++ s.evs ∧
+              (o4 = .failed → c.tag = true) := by
+            split at htag
+            · rename_i ht
+              have := congrArg (fun r => r.1.evs) htag
+              simp only [vcsCall_evs] at this
+              simp [tagL, ht, ← this, h3, tagCmd]
+            · rename_i ht
+              simp only [Prod.mk.injEq] at htag
+              simp [tagL, ht, ← htag.1, ← htag.2, h3]
+          clear htag
+          split at h
+          · rename_i ho4
+            have ht := h4.2 (by cases o4 <;> simp_all)
+            subst h
+            exact ⟨_, by simpa [tagL, ht] using h4.1, .tagFail hp' hq' ht⟩
+          · split at h
+            · rename_i hpush
+              split at h
+              rename_i s5 rem hrem
+              obtain ⟨probes, hpr, hprobes⟩ := getRemote_ext e s4
+              rw [hrem] at hpr
+              simp only at hpr
+              split at h
+              · have := congrArg (fun r => r.1.evs) h
+                simp only [vcsCall_evs] at this
+                refine ⟨_, ?_, .push probes r.2 hp' hq' hpush hprobes⟩
+                simp [← this, hpr, h4.1, pushCmd]
+              · subst h
+                exact ⟨_, by simp [hpr, h4.1], .noRemote probes hp' hq' hpush hprobes⟩
+            · rename_i hpush
+              subst h
+              exact ⟨_, by simp [h4.1], .noPush hp' hq' (by simpa using hpush)⟩
+
+theorem commitPhase_shape (e : PlanEnv) (c : PlanCfg) (s : PState) :
+    ∃ C, (commitPhase e c s).1.evs = C ++ s.evs ∧ CommitShape e c C (commitPhase e c s).2 :=
+  commitPhase_shape' e c s _ rfl
+/-- the possible traces and exit codes of `plan` once the options are accepted -/
+inductive PlanShape (c : PlanCfg) (a : PlanCli) (e : PlanEnv) : List Ev → Nat → Prop
+  | early (T : List Ev) (code : Nat) : (∀ ev ∈ T, TagEv a.fetch ev) → (code = 1 ∨ a.dry = true) →
+      PlanShape c a e T code
+  | dirty (T : List Ev) : (∀ ev ∈ T, TagEv a.fetch ev) → c.commit = true → a.dry = false →
+      PlanShape c a e (T ++ [.cmd "is_usable", .cmd "status"]) 1
+  | unusable (T U : List Ev) : (∀ ev ∈ T, TagEv a.fetch ev) → a.dry = false →
+      (U = [] ∨ U = [.cmd "is_usable"]) → PlanShape c a e (T ++ U) 1
+  | noVcs (T U : List Ev) : (∀ ev ∈ T, TagEv a.fetch ev) → a.dry = false →
+      (U = [] ∨ U = [.cmd "is_usable"]) → PlanShape c a e (T ++ U ++ [.rewrite]) 0
+  | commit (T C : List Ev) (o : Outcome) : (∀ ev ∈ T, TagEv a.fetch ev) → c.commit = true →
+      a.dry = false → e.dirtyAbort = false → CommitShape e c C o →
+      PlanShape c a e (T ++ [.cmd "is_usable", .cmd "status", .rewrite] ++ C.reverse)
+        (if o = .ok then 0 else 1)
+
+theorem TagEv.of_false {f : Bool} {ev : Ev} (h : TagEv false ev) : TagEv f ev := by
+  simp only [TagEv] at h ⊢
+  simp only [Bool.false_eq_true, false_and, or_false] at h
+  rcases h with h | h | h <;> simp [h]
+
+theorem plan_shape' (c0 c : PlanCfg) (a : PlanCli) (e : PlanEnv)
+    (hc : parseVcsOptions c0 a = some c) (r : List Ev × Nat) (h : plan c0 a e = r) :
+    PlanShape c a e r.1 r.2 := by
+  unfold plan at h
+  split at h
+  · simp_all
+  rename_i c' hc'
+  obtain rfl : c' = c := by rw [hc] at hc'; exact (Option.some.inj hc').symm
+  clear hc'
+  extract_lets s0 at h
+  split at h
+  rename_i s1 o1 h1
+  have e1 : Ext (TagEv a.fetch) [] s1.evs := by
+    split at h1
+    · simp only [Prod.mk.injEq] at h1; rw [← h1.1]; exact .refl _
+    · have := getTags_ext e a.fetch c'.scopeBranch s0
+      rw [h1] at this; exact this
+  clear h1
+  have early1 : PlanShape c' a e s1.evs.reverse 1 :=
+    .early _ _ (by obtain ⟨T, hT, hm⟩ := e1; simpa [hT] using hm) (.inl rfl)
+  split at h
+  · subst h; exact early1
+  split at h
+  · subst h; exact early1
+  clear early1
+  split at h
+  rename_i s2 o2 h2
+  have e2 : Ext (TagEv a.fetch) [] s2.evs := by
+    split at h2
+    · have := (getTags_ext e false false s1).mono (Q := TagEv a.fetch) (fun _ => TagEv.of_false)
+      rw [h2] at this; exact e1.trans this
+    · simp only [Prod.mk.injEq] at h2; rw [← h2.1]; exact e1
+  clear h2 e1
+  obtain ⟨T, hT, hm⟩ := e2
+  simp only [List.append_nil] at hT
+  have hm' : ∀ ev ∈ T.reverse, TagEv a.fetch ev := by simpa using hm
+  have early2 : ∀ code, (code = 1 ∨ a.dry = true) → PlanShape c' a e s2.evs.reverse code :=
+    fun code hcode => hT ▸ .early _ _ hm' hcode
+  split at h
+  · subst h; exact early2 _ (.inl rfl)
+  split at h
+  · subst h; exact early2 _ (.inl rfl)
+  split at h
+  · rename_i hd; subst h; exact early2 _ (.inr hd)
+  rename_i hd
+  have hd : a.dry = false := by simpa using hd
+  clear early2
+  split at h
+  rename_i s3 usable h3
+  split at h
+  rename_i s4 o4 h4
+  cases usable
+  · -- not usable: no status, no commit phase
+    have hU : s3.evs.reverse = T.reverse ++ [] ∨ s3.evs.reverse = T.reverse ++ [.cmd "is_usable"] := by
+      split at h3
+      · rcases isUsable_shape e s2 with ⟨hu, _⟩ | hu <;> rw [h3] at hu <;> simp only at hu <;> simp [hu, hT]
+      · simp only [Prod.mk.injEq] at h3; simp [← h3.1, hT]
+    simp only [Bool.false_eq_true, if_false, Prod.mk.injEq] at h4
+    obtain ⟨rfl, rfl⟩ := h4
+    simp only [Bool.false_and, Bool.not_false, if_true, Bool.false_eq_true, if_false,
+      show (Outcome.ok == Outcome.failed) = false from rfl] at h
+    split at h
+    · subst h
+      rcases hU with hU | hU <;> rw [hU]
+      · exact .unusable _ _ hm' hd (.inl rfl)
+      · exact .unusable _ _ hm' hd (.inr rfl)
+    · subst h
+      simp only [List.reverse_cons]
+      rcases hU with hU | hU <;> rw [hU]
+      · exact .noVcs _ _ hm' hd (.inl rfl)
+      · exact .noVcs _ _ hm' hd (.inr rfl)
+  · have hcm : c'.commit = true ∧ s3.evs = .cmd "is_usable" :: T := by
+      split at h3
+      · rename_i hcm
+        refine ⟨hcm, ?_⟩
+        rcases isUsable_shape e s2 with ⟨_, hu⟩ | hu <;> rw [h3] at hu <;> simp only at hu
+        · cases hu
+        · rw [hu, hT]
+      · simp only [Prod.mk.injEq] at h3; cases h3.2
+    clear h3
+    simp only [if_true] at h4
+    have h4e : s4.evs.reverse = T.reverse ++ [.cmd "is_usable", .cmd "status"] := by
+      have := congrArg (fun r => r.1.evs) h4
+      simp only [vcsCall_evs] at this
+      simp [← this, hcm.2]
+    have hdirty : PlanShape c' a e s4.evs.reverse 1 := h4e ▸ .dirty _ hm' hcm.1 hd
+    split at h
+    · subst h; exact hdirty
+    split at h
+    · subst h; exact hdirty
+    rename_i hda
+    have hda : e.dirtyAbort = false := by simpa using hda
+    split at h
+    · subst h; exact hdirty
+    extract_lets s5 at h
+    simp only [Bool.not_true, Bool.false_eq_true, if_false] at h
+    obtain ⟨C, hC, hsh⟩ := commitPhase_shape e c' s5
+    generalize commitPhase e c' s5 = r6 at *
+    obtain ⟨s6, o6⟩ := r6
+    simp only at hC hsh h
+    subst h
+    have : s6.evs.reverse = T.reverse ++ [.cmd "is_usable", .cmd "status", .rewrite] ++ C.reverse := by
+      simp [hC, s5, h4e]
+    simp only [this]
+    have hcode : (if (o6 == Outcome.ok) = true then 0 else 1) = (if o6 = .ok then 0 else 1) := by
+      cases o6 <;> rfl
+    rw [hcode]
+    exact .commit _ _ _ hm' hcm.1 hd hda hsh
+
+theorem plan_shape (c0 c : PlanCfg) (a : PlanCli) (e : PlanEnv)
+    (hc : parseVcsOptions c0 a = some c) : PlanShape c a e (plan c0 a e).1 (plan c0 a e).2 :=
+  plan_shape' c0 c a e hc _ rfl
 
 end BV
